@@ -6,6 +6,7 @@
 #   selftest.sh suite             the repository's own test suite on the instrumented copy
 #   selftest.sh seeded [id...]    every change in /verif/seeded must make the check named in its meta.json fail
 #   selftest.sh mutants [ID...]   every patch in /verif/mutants must make its property's quick check fail
+#   selftest.sh benign [id...]    every property-preserving change in /verif/benign must leave its checks quiet
 #   selftest.sh channels          simrt's channel fallback: benign channel-using change quiet, breaking one caught, replay exact
 set -u
 cd /verif
@@ -81,6 +82,26 @@ mutants)
     git -C /repo worktree remove --force $W 2>/dev/null; rm -rf $W
   done
   exit $rc ;;
+benign)
+  # every property-preserving change in /verif/benign must leave the checks named in its meta.json quiet
+  shift
+  rc=0
+  for d in benign/*/; do
+    id=$(python3 -c "import json;print(json.load(open('$d/meta.json'))['id'])")
+    if [ $# -gt 0 ] && ! echo " $* " | grep -q " $id "; then continue; fi
+    props=$(python3 -c "import json;print(' '.join(json.load(open('$d/meta.json'))['checks_run']))")
+    W=$(mktemp -d /dev/shm/verif-benign.XXXXXX)
+    git -C /repo worktree add -q --detach $W HEAD 2>/dev/null || { echo "worktree failed"; exit 2; }
+    if ! git -C $W apply $PWD/$d/patch.diff 2>/dev/null; then echo "SKIP (does not apply): $id"; git -C /repo worktree remove --force $W; continue; fi
+    for p in $props; do
+      out=$(VERIF_REPO=$W VERIF_SECONDS=${MUTANT_SECONDS:-25} ./check.sh $p quick 2>&1); code=$?
+      if [ $code -eq 0 ]; then echo "quiet    $id under $p";
+      elif [ $code -eq 1 ]; then echo "ALARM    $id under $p: $(echo "$out" | grep -m1 '^violation' | cut -c12-150)"; rc=1;
+      else echo "NO VERDICT $id under $p (exit $code)"; rc=1; fi
+    done
+    git -C /repo worktree remove --force $W 2>/dev/null; rm -rf $W
+  done
+  exit $rc ;;
 channels)
   # the channel fallback of simrt: a benign change that uses channels, select, range over a
   # channel and sync.Cond must leave C02 and C07 quiet; one that acknowledges a write before it
@@ -106,5 +127,5 @@ channels)
     git -C /repo worktree remove --force $W 2>/dev/null; rm -rf $W
   done
   exit $rc ;;
-*) echo "usage: selftest.sh determinism|suite|fidelity|mutants|seeded|channels" >&2; exit 2 ;;
+*) echo "usage: selftest.sh determinism|suite|fidelity|mutants|seeded|benign|channels" >&2; exit 2 ;;
 esac
